@@ -1077,7 +1077,7 @@ class Interp:
                         if not s.feasible(st.pc, g):
                             continue
                         if s.feasible(st.pc, z3.Not(g)):
-                            raise Unsupported('range over map with symbolic membership')
+                            raise ForkBool(g, 'map membership in range')
                     live.append((k, v))
                 R[ins['reg']] = Ptr(s.new_obj(st, ('ITER', tuple(live), 0), ('ITER',)))
         elif op == 'Next':
